@@ -1,4 +1,6 @@
 """C04 - predictions do not depend on where the structure sits in space."""
+import math
+
 from .. import common, observe, pdbgen
 
 SPEC = dict(
@@ -210,6 +212,91 @@ def corpus_first(ctx):
                 ctx.violate(rep["signature"], "corpus witness %s: %s" % (f.name, "; ".join(d[:2])), r)
 
 
+def align_x(lines, u):
+    """the structure turned so that the unit vector `u` points along +x (Rodrigues rotation about u x ex), coordinates
+    rounded back to the 0.001 grid: a new, slightly different structure, which is then only translated exactly"""
+    ux, uy, uz = u
+    c = ux                                   # cos of the angle between u and ex
+    ax = (0.0, uz, -uy)                      # u x ex
+    s = math.sqrt(ax[1] ** 2 + ax[2] ** 2)
+    if s < 1e-9:
+        m = [[1, 0, 0], [0, 1, 0], [0, 0, 1]] if c > 0 else [[-1, 0, 0], [0, -1, 0], [0, 0, 1]]
+    else:
+        k = (0.0, ax[1] / s, ax[2] / s)
+        K = [[0, -k[2], k[1]], [k[2], 0, -k[0]], [-k[1], k[0], 0]]
+        K2 = [[sum(K[i][l] * K[l][j] for l in range(3)) for j in range(3)] for i in range(3)]
+        m = [[(1 if i == j else 0) + s * K[i][j] + (1 - c) * K2[i][j] for j in range(3)] for i in range(3)]
+    out = []
+    for l in lines:
+        if pdbgen.is_atom(l):
+            v = pdbgen.coords(l)
+            w = [round(sum(m[i][j] * v[j] for j in range(3)), 3) for i in range(3)]
+            l = pdbgen.set_coords(l, *w)
+        out.append(l)
+    return out
+
+
+def boundary_scan(ctx, fbad, hbad):
+    """Directed family for anything that sorts atoms or groups into cells of an absolute grid: the pairs of groups whose
+    centres are furthest apart among all pairs that share a determinant are laid along the x axis, and the structure is then
+    moved along x in small exact steps over several Angstrom, so that every cell boundary of every plausible cell size passes
+    between the two centres.  Every pose is compared with the first (heavy-atom observables 1e-9, pKa and determinants within
+    hydrogen rounding); all poses also go through the scoring correspondence."""
+    rnd = ctx.rng
+    names = ["4DFR", "1HPX"] if ctx.quick() else ["4DFR", "1HPX", "3SGB", "1FTJ-Chain-A"]
+    step = 0.15 if ctx.quick() else 0.1
+    span = 6.3 if ctx.quick() else 8.0
+    for name, text in pdbgen.test_files(names):
+        lines = pdbgen.lines_of(text)
+        if name == "4DFR":
+            # one chain, first alternate only: a structure of its own, a quarter of the cost
+            lines = [l for l in lines if not pdbgen.is_atom(l) or (l[21] == "B" and l[16] in " A")]
+            lines = [pdbgen.setcols(l, 16, 17, " ") if pdbgen.is_atom(l) else l for l in lines]
+            name = "4DFR-chain-B"
+        lines = [l for l in lines if l.startswith("ATOM") or not pdbgen.is_atom(l)]     # amino acids: all hydrogens are frame-independent
+        base = observe.run(pdbgen.text(lines), [], want_text=False)
+        if base.error or frame_dependent_hydrogens(base) > 0:
+            ctx.count("boundary scan skipped (error or frame-dependent hydrogens): " + name)
+            continue
+        conf = base.mol.conformations[base.mol.conformation_names[0]]
+        cand = {}
+        for g in conf.groups:
+            for kind in ('backbone', 'sidechain', 'coulomb'):
+                for d in g.determinants[kind]:
+                    h = d.group.group if type(d.group).__name__ == 'Iterative' else d.group
+                    v = (h.x - g.x, h.y - g.y, h.z - g.z)
+                    n = math.sqrt(sum(c * c for c in v))
+                    if n > 1.0:
+                        cand.setdefault(kind, []).append((n, g.label, h.label, tuple(c / n for c in v)))
+        picks = []
+        for kind, k in (('backbone', 2), ('sidechain', 1), ('coulomb', 1)) if ctx.quick() else (('backbone', 4), ('sidechain', 3), ('coulomb', 3)):
+            picks += [(kind,) + c for c in sorted(cand.get(kind, []), reverse=True)[:k]]
+        for kind, dist, la, lb, u in picks:
+            al = align_x(lines, u)
+            ref = observe.run(pdbgen.text(al), [], want_text=False)
+            if ref.error or frame_dependent_hydrogens(ref) > 0:
+                continue
+            rh, rf = heavy_obs(ref), full_obs(ref)
+            nsteps = int(span / step)
+            for i in range(1, nsteps + 1):
+                tx = round(i * step, 3)
+                ml = pdbgen.translate(al, tx, 0.0, 0.0)
+                o = observe.run(pdbgen.text(ml), [], want_text=False)
+                ctx.case(key=("scan", name, la, lb, tx))
+                ctx.count("boundary-scan poses (%s pairs)" % kind)
+                if o.error:
+                    hbad.append((name, ["error %r" % (o.error,)], pdbgen.text(ml), pdbgen.text(al)))
+                    break
+                d = cmp_heavy(rh, heavy_obs(o))
+                if d and not is_d10(d):
+                    hbad.append((name + " %s-%s along x" % (la, lb), d[:3], pdbgen.text(ml), pdbgen.text(al)))
+                    break
+                d = cmp_full(rf, full_obs(o), tol=0.02)
+                if d and not d10_explains(d, ref):
+                    fbad.append((name + " %s-%s (%.2f A, %s) along x, moved by %.3f" % (la.strip(), lb.strip(), dist, kind, tx), d[:3], pdbgen.text(ml), pdbgen.text(al)))
+                    break
+
+
 def _run(ctx):
     rnd = ctx.rng
     corpus_first(ctx)
@@ -308,6 +395,7 @@ def _run(ctx):
                     ctx.violate("D10:cterm-carbon-choice-depends-on-bond-order", "%s with supplied hydrogens, moved: %s" % (name, "; ".join(d[:2])), dict(pdb=pdbgen.text(ml), original=pdbgen.text(hl), diffs=d[:4]))
                 elif d:
                     kbad.append((name, d[:3], pdbgen.text(ml), pdbgen.text(hl)))
+    boundary_scan(ctx, fbad, hbad)
     ctx.coverage["known_finding_instances"] = hbad_known
     for b in hbad[:2]:
         ctx.violate("D10:cterm-carbon-choice-depends-on-bond-order" if is_d10(b[1]) else "motion-heavy:" + b[0],
